@@ -294,6 +294,30 @@ class _QueueProxy(object):
         return getattr(self._real, name)
 
 
+def sim_sleep(secs=0):
+    """Cooperative time.sleep for code under test: a polling loop (`while not ready: time.sleep(0.01)`) in
+    the thread that holds the baton would otherwise sleep for real while everybody it waits for is parked.
+    Sleeping yields to the runnable thread that has run least recently; no real time passes."""
+    s = _current[0]
+    t = s.ident2tid.get(_get_ident()) if s is not None else None
+    if t is None:
+        return _real_sleep(min(secs, 0.001))
+    s.block_on(t, None, timed=True)
+
+
+_real_sleep = time.sleep
+
+
+class _TimeProxy(object):
+    """Stands in for the `time` module inside athlib namespaces."""
+    def __init__(self, real):
+        self.__dict__['_real'] = real
+    def __getattr__(self, name):
+        if name == 'sleep':
+            return sim_sleep
+        return getattr(self._real, name)
+
+
 _FACTORIES = {'Lock': sim_lock_factory, 'RLock': sim_rlock_factory, 'Condition': SimCondition, 'Event': SimEvent,
               'Semaphore': SimSemaphore, 'BoundedSemaphore': SimSemaphore}
 
@@ -338,6 +362,10 @@ def install_lock_seam(modules):
             r = SimSemaphore(v._value)
         elif v is threading:
             r = _ThreadingProxy(threading)
+        elif v is time:
+            r = _TimeProxy(time)
+        elif v is _real_sleep:
+            r = sim_sleep
         elif v is _queue_mod:
             r = _QueueProxy(_queue_mod)
         elif v is _queue_mod.Queue or v is _queue_mod.SimpleQueue:
